@@ -3,8 +3,8 @@ package main
 func init() {
 	register(&PropDef{
 		ID: "C17", Patterns: []string{"./interp"}, Specs: []string{"build"},
-		Covered: []string{"contains", "buildTagOk", "buildOptionOk", "buildLineOk", "skipFile", "goMinorVersion", "knownOs/knownArch tables", "buildOk: constraints evaluated in the given context, a rejected file adds no yaegi:tags"},
-		Uncov:   []string{"go/parser's comment groups (opaque)", "where selection is applied (ast.go parse, src.go importSrc)"},
+		Covered: []string{"contains", "buildTagOk", "buildOptionOk", "buildLineOk", "skipFile", "goMinorVersion", "knownOs/knownArch tables", "buildOk: constraints evaluated in the given context, a rejected file adds no yaegi:tags", "where selection is applied: parse consults buildOk before the Go parser and before adding tags; importSrc reads and parses only files skipFile kept"},
+		Uncov:   []string{"go/parser's comment groups (opaque)"},
 		Extra: func(r *Run) {
 			r.tableSuperset("interp", "knownOs", "knownOSspec")
 			r.tableSuperset("interp", "knownArch", "knownArchSpec")
@@ -55,8 +55,8 @@ func init() {
 	register(&PropDef{
 		ID: "C09", Patterns: []string{"./interp"},
 		Extra:   func(r *Run) { r.idWriters(); r.blockingOps(); r.contextWatchers() },
-		Covered: []string{"newFrame/clone/stop contracts", "id inheritance at every newFrame call site", "run-id gate before every exec closure application in both runCfg loops", "writers of frame.id / Interpreter.id enumerated", "recv/recv2/send/rangeChan: the blocking reflect.Select races f.done at index 0 and the closure returns nil when it is chosen"},
-		Uncov:   []string{"promptness (time) and goroutine exit", "interleavings of stop with a running frame", "the select statement (_select): its case vector is a slice of struct values filled in a loop, outside the slice model"},
+		Covered: []string{"newFrame/clone/stop contracts", "id inheritance at every newFrame call site", "run-id gate before every exec closure application in both runCfg loops", "writers of frame.id / Interpreter.id enumerated", "recv/recv2/send/rangeChan: the blocking reflect.Select races f.done at index 0 and the closure returns nil when it is chosen", "_select: the per-execution case vector ends with the frame's done case, the operand loop leaves it alone, the closure stops when it is chosen"},
+		Uncov:   []string{"promptness (time) and goroutine exit", "interleavings of stop with a running frame"},
 		Trusted: trusted,
 	})
 	register(&PropDef{
@@ -75,8 +75,8 @@ func init() {
 			r.restrictedTables()
 			r.fixStdlibShape()
 		},
-		Covered: []string{"default table lacks unsafe/syscall/os/exec", "exit entry points bound to the restricted replacements, which never return normally and call no exiting function", "no unwrapped *log.Logger is handed out (function results and variables)", "Getenv/LookupEnv/Setenv/Unsetenv/Clearenv implement the map model over interp.env", "Environ lists exactly the map; ExpandEnv expands through the map's Getenv, never the host's", "shape of the stream/argument redirection closures of fixStdlib"},
-		Uncov:   []string{"Options.Env parsing in New", "cmd/yaegi flag gating", "loggers reachable through struct fields (http.Server.ErrorLog) or interfaces"},
+		Covered: []string{"default table lacks unsafe/syscall/os/exec", "exit entry points bound to the restricted replacements, which never return normally and call no exiting function", "no unwrapped *log.Logger is handed out (function results and variables)", "Getenv/LookupEnv/Setenv/Unsetenv/Clearenv implement the map model over interp.env", "Environ lists exactly the map; ExpandEnv expands through the map's Getenv, never the host's", "New: Options.Env parsed at the first '=', streams and arguments taken from the options, only YAEGI_* host variables read", "print builtins write to the interpreter's stdout only", "shape of the stream/argument redirection closures of fixStdlib"},
+		Uncov:   []string{"cmd/yaegi flag gating", "loggers reachable through struct fields (http.Server.ErrorLog) or interfaces"},
 		Trusted: []string{"T1 go toolchain, go/types, solvers", "T2 govc", "T5 log.Panic* panic without exiting; fmt.Fprint* write only to their writer"},
 	})
 }
@@ -115,8 +115,8 @@ func init() {
 	register(&PropDef{
 		ID: "C19", Patterns: []string{"./interp"},
 		Extra: func(r *Run) { r.debuggerFrame(); r.sessionLifecycle() },
-		Covered: []string{"both loops of runCfg apply exec closures only behind the run-id gate (shared with C09)", "Debugger.exec/enterCall/exitCall assign only debugger state (f.debug, goroutine records, dbg.*)", "setBreakOnLine/setBreakOnCall set exactly their own flag; the visitor of SetBreakpoints keeps function breakpoints in the line pass and vice versa", "Debugger.exec: per-node stop decision against a ghost trace of the event callback (breakpoints always reported, step filters)", "node tracking of the debugger loop (known finding: code-pointer comparison; tie-break pinned)", "originalExecNode: the last matching node in walk order", "Step/Continue/setMode: resume requests reach the goroutine they name, mode and depth as requested"},
-		Uncov:   []string{"order of events across nodes and goroutines", "the terminate event and Interrupt"},
+		Covered: []string{"both loops of runCfg apply exec closures only behind the run-id gate (shared with C09)", "Debugger.exec/enterCall/exitCall assign only debugger state (f.debug, goroutine records, dbg.*)", "setBreakOnLine/setBreakOnCall set exactly their own flag; the visitor of SetBreakpoints keeps function breakpoints in the line pass and vice versa", "Debugger.exec: per-node stop decision against a ghost trace of the event callback (breakpoints always reported, step filters)", "node tracking of the debugger loop (known finding: code-pointer comparison; tie-break pinned)", "originalExecNode: the last matching node in walk order", "Step/Continue/Interrupt/setMode: requests reach the goroutine they name, mode and depth as requested", "getGoRoutine (verified lookup), Terminate (every live routine told, table emptied)", "session goroutine: terminate event deferred first, execution after the resume request"},
+		Uncov:   []string{"order of events across nodes and goroutines", "that no event follows the terminate event at run time (only its registration order is checked)"},
 		Trusted: []string{"T1 go toolchain, solvers", "T2 govc", "A3 sequential semantics"},
 	})
 }
@@ -125,8 +125,8 @@ func init() {
 	register(&PropDef{
 		ID: "C12", Patterns: []string{"./interp"},
 		Extra:   func(r *Run) { r.compilePhaseEffects(); r.opTables() },
-		Covered: []string{"eval reaches Execute only after compileSrc returned no error", "compile-phase functions reach no execution function in the static call graph (importSrc reported separately)", "exec closures are applied only at run time", "assignableTo: identical types accepted, distinct defined types rejected", "comparison: comparable / ordered / nil rules", "convertibleTo: exactly the admitted conversions", "op / shift / conversion / assignment / index / typeAssertionExpr / sliceExpr rules", "operator admissibility tables (ground)", "binaryExpr: operands of arithmetic have identical types"},
-		Uncov:   []string{"the remaining type rules of typecheck.go (composite literals, builtins, range, arguments)", "implements against the Go spec", "name resolution errors in cfg.go/gta.go", "calls through function values and interfaces in the call graph"},
+		Covered: []string{"eval reaches Execute only after compileSrc returned no error", "compile-phase functions reach no execution function in the static call graph (importSrc reported separately)", "exec closures are applied only at run time", "assignableTo: identical types accepted, distinct defined types rejected", "comparison: comparable / ordered / nil rules", "convertibleTo: exactly the admitted conversions", "op / shift / conversion / assignment / index / typeAssertionExpr / sliceExpr rules", "operator admissibility tables (ground)", "binaryExpr: operands of arithmetic have identical types", "unaryExpr / starExpr / addressExpr / arrayLitExpr / mapLitExpr / structLitExpr / argument / arguments rules", "call sites in cfg.go: every rule is consulted with the node the specification names and its error is the node's error (composite literals, assignments, address, inc/dec, slice, dereference, type assertion, index, call/builtin/conversion, binary, unary); instantiation errors are reported"},
+		Uncov:   []string{"the remaining type rules of typecheck.go (builtin, structBinLitExpr, range, return)", "implements against the Go spec", "name resolution errors in cfg.go/gta.go", "calls through function values and interfaces in the call graph"},
 		Trusted: []string{"T1 go toolchain, solvers", "T2 govc", "itype.equals/underlying/id are pure functions of their receiver"},
 	})
 }
@@ -151,8 +151,8 @@ func init() {
 	register(&PropDef{
 		ID: "C18", Patterns: []string{"./extract"},
 		Extra:   func(r *Run) { r.extractShape() },
-		Covered: []string{"fixConst: exact textual value and token per constant kind, helper imports recorded", "classification switch of genContent: constants and functions by value, variables by address, types as types, generic objects skipped (shape obligations)", "qualifier: every foreign package printed is imported", "constraint-interface test on the complete method set", "wrapper method strings: parameters, variadic last parameter, arguments, results, receiver qualification"},
-		Uncov:   []string{"template rendering and format.Source", "build-tag line synthesis (genBuildTags)", "that the output compiles for every package", "float constants are printed from a big.Float (see C14 finding)"},
+		Covered: []string{"fixConst: exact textual value and token per constant kind, helper imports recorded", "classification switch of genContent: constants and functions by value, variables by address, types as types, generic objects skipped (shape obligations)", "qualifier: every foreign package printed is imported", "constraint-interface test on the complete method set", "wrapper method strings: parameters, variadic last parameter, arguments, results, receiver qualification", "genBuildTags: go1.N, with the exclusion of go1.N+1 unless N is the newest known release"},
+		Uncov:   []string{"template rendering and format.Source", "that the output compiles for every package", "float constants are printed from a big.Float (see C14 finding)"},
 		Trusted: []string{"T1 go toolchain, solvers", "T2 govc", "fmt.Sprintf is a pure function of its arguments; go/constant ExactString/String are distinct pure functions"},
 	})
 }
@@ -160,8 +160,8 @@ func init() {
 func init() {
 	register(&PropDef{
 		ID: "C04", Patterns: []string{"./interp"},
-		Covered: []string{"single assignment copies content into the existing location", "define (:=) allocates a new location holding the copy and leaves the previous one untouched", "multi-assignment reads every right-hand side into a fresh temporary before the first write (first loop of the swap-safe closure)", "slice expressions: operands in order", "spread argument of a variadic call shares the caller's slice", "len/cap/append/copy/delete builtins, address-of and dereference, map index, map and array literals: result against the reflect model (append: one growth for all values)"},
-		Uncov:   []string{"sequences of operations (the property's history quantifier)", "other call argument copies, range copies, struct composite literals, map element update through getIndexMap2, make/new", "reflect's own copy semantics (T3)"},
+		Covered: []string{"single assignment copies content into the existing location", "define (:=) allocates a new location holding the copy and leaves the previous one untouched", "multi-assignment reads every right-hand side into a fresh temporary before the first write (first loop of the swap-safe closure)", "slice expressions: operands in order", "spread argument of a variadic call shares the caller's slice", "len/cap/append/copy/delete builtins, address-of and dereference, map index, map and array literals, make: result against the reflect model (append: one growth for all values)"},
+		Uncov:   []string{"sequences of operations (the property's history quantifier)", "other call argument copies, range copies, struct composite literals, map element update through getIndexMap2, new", "reflect's own copy semantics (T3)"},
 		Trusted: []string{"T1 go toolchain, solvers", "T2 govc", "T3 reflect.Value model (Set copies content, New allocates)", "value functions are pure lookups returning pre-state locations"},
 	})
 }
